@@ -241,6 +241,21 @@ let run_model (p : parsed) : S.t =
       | Done (r, st') -> st := st'; sexp_of_resp r) p.calls in
   S.L (outs @ [S.L [S.A "printed"; S.A (if printed_changed p !st then "changed" else "same")]])
 
+(* ids of the inline fragments of the document of the case at hand *)
+let inline_ids : int list ref = ref []
+let rec collect_inline (s : S.t) : int list =
+  match s with
+  | S.L (S.A "in" :: S.A id :: rest) -> (try [int_of_string id] with _ -> []) @ List.concat_map collect_inline rest
+  | S.L l -> List.concat_map collect_inline l
+  | _ -> []
+
+(* a "fragment at" segment that points at an inline fragment (or at nothing the document holds) *)
+let has_inline_fragseg (e : S.t) : bool =
+  match e with
+  | S.L [S.A "e"; S.L path; _; _] ->
+    List.exists (function S.L [S.A "fa"; S.A id] -> (try List.mem (int_of_string id) !inline_ids with _ -> false) | _ -> false) path
+  | _ -> false
+
 let has_fragseg (e : S.t) : bool =
   match e with
   | S.L [S.A "e"; S.L path; _; _] -> List.exists (function S.L [S.A "fa"; _] -> true | _ -> false) path
@@ -420,6 +435,7 @@ let oracle (prop : string) (p : parsed) (observed : S.t) : string =
           else if check_data && not data_ok then "fails:data-differs-from-selection-semantics"
           else if check_calls && not calls_ok then "fails:resolver-calls-differ-from-selection-semantics"
           else if check_errs && not errs_ok then "fails:errors-differ-(path-location-kind-multiset)"
+          else if prop = "C06" && List.exists has_inline_fragseg oe then "fails:errpath-segment-for-an-inline-fragment-in-error-path"
           else if prop = "C06" && fragseg then "fails:errpath-fragment-segment-in-error-path"
           else "holds"
         | S.L [S.A "diverge"], _ | _, S.L [S.A "diverge"] -> "fails:diverge"
@@ -435,6 +451,7 @@ let oracle (prop : string) (p : parsed) (observed : S.t) : string =
 
 let run (prop : string) (input : S.t) (observed : S.t) : S.t * string =
   let p = parse input in
+  inline_ids := collect_inline input;
   (run_model p, oracle prop p observed)
 
 (* ---- C07: envelope, locations under layouts, JSON text ---- *)
